@@ -1,6 +1,7 @@
 import NdonnxVerif.Driver.Dtype
 import NdonnxVerif.Driver.Heap
 import NdonnxVerif.Driver.Scalar
+import NdonnxVerif.Driver.Reduce
 import NdonnxVerif.Driver.Index
 /-! Line-protocol driver: one request per line on stdin, one answer per line on stdout. -/
 open Ndx.Drv
@@ -10,6 +11,7 @@ def dispatch (line : String) : String :=
   | [] => "bad-op"
   | cmd :: args =>
     match cmd with
+    | "reduce_shape" => cmdReduceShape args
     | "proto" => cmdProto args
     | "heap" => cmdHeap args
     | "rt" => cmdRt args
